@@ -1,6 +1,7 @@
 import Proofs.SqlFixedPoint
 import Proofs.SqlReloadRoutes
 import Proofs.SqlLinks
+import Proofs.SqlInfer
 import Proofs.SqlParserTotal
 
 /-!
@@ -315,6 +316,82 @@ theorem reload_same_persist (u : UC) (m : MM) (hw : m.WF u) (hm : m.Closed u) (h
   have ham : a ∈ m.assocs := (mem_sortBy _ _ _).mp ha
   rw [linksOfAssoc_reloaded u m hm hsafe _ a ham]
   exact hL a ham p
+
+/-! ### text fixed point at model level -/
+
+/-- TEXT FIXED POINT, `serialize_database`: let R = `m.reloaded` be the metamodel reloaded from the text of a well-formed,
+    closed metamodel m.  The text₂ written from R is accepted, builds, and the metamodel built from it is R again, so the
+    text₃ written from that is text₂: `serialize (reload m) = serialize (reload (reload m))`.  Covers the whole value
+    canonicalisation (unset → null value, six-decimal reals, booleans as 0 / 1, string and phrase escaping, type names
+    upper-cased, classes sorted). -/
+theorem text_fixed_point (u : UC) (m : MM) (hw : m.WF u) (hm : m.Closed u) (text1 : Text)
+    (hp : printItems u (m.serializeDatabase u) = some text1) :
+    ∃ text2, printItems u ((m.reloaded u m.assocsByIdKind).serializeDatabase u) = some text2 ∧
+      ∃ stmts2 bs2, classify u text2 = .accepted stmts2 ∧ build u stmts2 = .ok bs2 ∧
+        bs2.toMM u = m.reloaded u m.assocsByIdKind ∧ printItems u ((bs2.toMM u).serializeDatabase u) = some text2 :=
+  text_fixed_point_serializeDatabase u m hw hm text1 hp
+
+/-- … `persist_database` -/
+theorem text_fixed_point_persist (u : UC) (m : MM) (hw : m.WF u) (hm : m.Closed u) (text1 : Text)
+    (hp : printItems u (m.persistDatabase u) = some text1) :
+    ∃ text2, printItems u ((m.reloaded u m.assocsById).persistDatabase u) = some text2 ∧
+      ∃ stmts2 bs2, classify u text2 = .accepted stmts2 ∧ build u stmts2 = .ok bs2 ∧
+        bs2.toMM u = m.reloaded u m.assocsById ∧ printItems u ((bs2.toMM u).persistDatabase u) = some text2 :=
+  text_fixed_point_persistDatabase u m hw hm text1 hp
+
+/-- … the three separately written parts of the RELOADED metamodel, in any of the six orders, build to the reloaded
+    metamodel again (so every part is written identically once more) -/
+theorem text_fixed_point_parts (u : UC) (m : MM) (hm : m.Closed u) (items : List Item) (stmts : List Stmt)
+    (hs : itemsStmts u items = some stmts) :
+    (items ∈ serializeOrders u (m.reloaded u m.assocsByIdKind) →
+      ∃ bs, build u stmts = .ok bs ∧ bs.toMM u = m.reloaded u m.assocsByIdKind) ∧
+    (items ∈ persistOrders u (m.reloaded u m.assocsById) →
+      ∃ bs, build u stmts = .ok bs ∧ bs.toMM u = m.reloaded u m.assocsById) := by
+  have hA1 : ∀ a ∈ m.assocsByIdKind, a ∈ m.assocs := fun a ha => (mem_sortBy _ _ _).mp ha
+  have hA2 : ∀ a ∈ m.assocsById, a ∈ m.assocs := fun a ha => (mem_sortBy _ _ _).mp ha
+  constructor
+  · intro h
+    obtain ⟨bs, hb, he⟩ := (reload_same_partial_parts u _ (closed_reloaded u m hm _ hA1) items stmts hs).1 h
+    exact ⟨bs, hb, by rw [he, reloaded_reloaded_byIdKind u m hm]⟩
+  · intro h
+    obtain ⟨bs, hb, he⟩ := (reload_same_partial_parts u _ (closed_reloaded u m hm _ hA2) items stmts hs).2 h
+    exact ⟨bs, hb, by rw [he, reloaded_reloaded_byId u m hm]⟩
+
+/-- WHEN THE FIRST TEXT IS ALREADY THE FIXED POINT: `serialize (reload m) = serialize m` holds when the classes of m are
+    already in sorted order and its attribute type names are already upper-case.  It can fail only through the order of
+    the INSERT blocks (the class dict order of m versus the sorted order after a reload) and the spelling of the type
+    names in the per-value comments; never through values (unset is written as the null value both times, a REAL value
+    of the model is its six-decimal numeral). -/
+theorem text_first_equals_second (u : UC) (m : MM) (hm : m.Closed u) (hsorted : SortedBy (classLe u) m.classes)
+    (hup : ∀ c ∈ m.classes, ∀ a ∈ c.attrs, u.upper a.2 = a.2) :
+    printItems u ((m.reloaded u m.assocsByIdKind).serializeDatabase u) = printItems u (m.serializeDatabase u) :=
+  serialize_reload_eq u m hm hsorted hup
+
+/-! ### without CREATE TABLE statements -/
+
+/-- which types the INSERT-only route infers: the declared one, except that BOOLEAN columns (written 0 / 1) become
+    INTEGER; the guess depends only on the declared type of the column, not on the row -/
+theorem insert_only_types (u : UC) (t : Gen.Persist.Ty) (x : Val) (txt : Text) (h : fmtValue t x = some txt) :
+    guessType u txt = some (guessedTy t) ∧ (t ≠ .BOOLEAN → guessedTy t = t) ∧ guessedTy .BOOLEAN = .INTEGER ∧
+    deserialize u (guessedTy t).chars txt = some (inferVal t x) ∧ fmtValue (guessedTy t) (inferVal t x) = some txt :=
+  ⟨guessType_fmt u t x txt h, by intro hne; cases t <;> first | rfl | exact absurd rfl hne, rfl,
+    deserialize_guessed u t x txt h, fmt_inferVal t x txt h⟩
+
+/-- WITHOUT CREATE TABLE: the instance text of a well-formed, closed metamodel alone is accepted and builds to
+    `m.inferred` — per kind that has rows, in the order of first appearance, a class with attributes `_0 … _n` of the
+    guessed types and the rows in their order with their values (unset ≡ null, a boolean as 0 / 1); identifiers,
+    associations and classes without rows are not there.  Writing the instances of that metamodel and loading them again
+    gives the same metamodel: a fixed point after one round. -/
+theorem insert_only_reload (u : UC) (m : MM) (hw : m.WF u) (hm : m.Closed u) (text1 : Text)
+    (hp : printItems u m.serializeInstances = some text1) :
+    (∃ stmts bs, classify u text1 = .accepted stmts ∧ build u stmts = .ok bs ∧ bs.toMM u = m.inferred u) ∧
+    ∃ text2, printItems u (m.inferred u).serializeInstances = some text2 ∧
+      ∃ stmts2 bs2, classify u text2 = .accepted stmts2 ∧ build u stmts2 = .ok bs2 ∧ bs2.toMM u = m.inferred u :=
+  instances_only_text u m hw hm text1 hp
+
+/-- inferring again changes nothing -/
+theorem insert_only_idem (u : UC) (m : MM) (hm : m.Closed u) : (m.inferred u).inferred u = m.inferred u :=
+  inferred_idem u m hm
 
 /- What remains outside these theorems: that the links `populate_connections` actually creates on the statements of the
    text are `linksOf` of the built metamodel is C03's `build_links` (stated on builder-C's loader model,
